@@ -528,6 +528,42 @@ func checkAndExtractFieldType(paths []string, typ reflect.Type) (extracted refle
 	return extracted, false, nil
 }
 
+// checkFieldPathSettable reports a target path with a field that is promoted through an embedded pointer of
+// an unexported type: such a pointer is nil in a fresh input value and cannot be allocated through reflection.
+func checkFieldPathSettable(paths []string, typ reflect.Type) error {
+	for _, field := range paths {
+		for typ.Kind() == reflect.Ptr {
+			typ = typ.Elem()
+		}
+
+		switch typ.Kind() {
+		case reflect.Map:
+			typ = typ.Elem()
+		case reflect.Struct:
+			f, ok := typ.FieldByName(field)
+			if !ok {
+				return nil
+			}
+			cur := typ
+			for _, idx := range f.Index[:len(f.Index)-1] {
+				if cur.Kind() == reflect.Ptr {
+					cur = cur.Elem()
+				}
+				sf := cur.Field(idx)
+				if sf.Type.Kind() == reflect.Ptr && !sf.IsExported() {
+					return fmt.Errorf("field[%s] of type[%v] is promoted through the embedded pointer[%s] of an unexported type, which cannot be set", field, typ, sf.Name)
+				}
+				cur = sf.Type
+			}
+			typ = f.Type
+		default:
+			return nil
+		}
+	}
+
+	return nil
+}
+
 var strType = reflect.TypeOf("")
 
 func checkAndExtractToField(toField string, output, toSet reflect.Value) (field reflect.Value, err error) {
@@ -793,6 +829,10 @@ func validateFieldMapping(predecessorType reflect.Type, successorType reflect.Ty
 
 		successorFieldType, successorIntermediateInterface, err = checkAndExtractFieldType(splitFieldPath(mapping.to), successorType)
 		if err != nil {
+			return nil, fmt.Errorf("static check failed for mapping %s: %w", mapping, err)
+		}
+
+		if err = checkFieldPathSettable(splitFieldPath(mapping.to), successorType); err != nil {
 			return nil, fmt.Errorf("static check failed for mapping %s: %w", mapping, err)
 		}
 
